@@ -73,18 +73,18 @@ def consRow (o : Option Cell) : Res (List (Option Cell) × Bytes) → Res (List 
   | .fail e => .fail e
 
 theorem readRow_term (w : Nat) (rest : Bytes) :
-    readRow true (w + 1) (leBytes 2 attrInvisibleShort ++ rest) = .ok ([], rest) := by
+    readRow (w + 1) (leBytes 2 attrInvisibleShort ++ rest) = .ok ([], rest) := by
   simp [readRow, leBytes, attrInvisibleShort]
 
 theorem readRow_invisible (w : Nat) (rest : Bytes) :
-    readRow true (w + 1) (leBytes 2 attrInvisible ++ rest) = consRow none (readRow true w rest) := by
+    readRow (w + 1) (leBytes 2 attrInvisible ++ rest) = consRow none (readRow w rest) := by
   simp [readRow, leBytes, attrInvisible, attrInvisibleShort, attrShortData, consRow]
-  cases readRow true w rest with
+  cases readRow w rest with
   | ok p => rfl
   | fail e => rfl
 
 theorem readRow_visible (w : Nat) (c : Cell) (rest : Bytes) (hw : c.wf = true) (hv : c.visible = true) :
-    readRow true (w + 1) (encodeCell c ++ rest) = consRow (some c) (readRow true w rest) := by
+    readRow (w + 1) (encodeCell c ++ rest) = consRow (some c) (readRow w rest) := by
   obtain ⟨ch, fg, bg, page, attr⟩ := c
   simp only [Cell.wf, Cell.visible, Bool.and_eq_true, decide_eq_true_eq, Bool.or_eq_true, Bool.not_eq_true',
     beq_iff_eq, attrInvisible, attrShortData] at hw hv
@@ -115,7 +115,7 @@ theorem readRow_visible (w : Nat) (c : Cell) (rest : Bytes) (hw : c.wf = true) (
     have e3 : bg % 256 = bg := by omega
     have e4 : page % 256 = page := by omega
     simp only [e1, e2, e3, e4, hsc, Bool.not_true, Bool.false_eq_true, if_false, consRow]
-    cases readRow true w rest with
+    cases readRow w rest with
     | ok p => rfl
     | fail e => rfl
   · simp only [hshort, Bool.false_eq_true, if_false]
@@ -137,7 +137,7 @@ theorem readRow_visible (w : Nat) (c : Cell) (rest : Bytes) (hw : c.wf = true) (
     have e3 : bg % 256 ^ 4 = bg := by omega
     have e4 : page % 256 ^ 2 = page := by omega
     simp only [e1, e2, e3, e4, hsc, Bool.not_true, Bool.false_eq_true, if_false, consRow]
-    cases readRow true w rest with
+    cases readRow w rest with
     | ok p => rfl
     | fail e => rfl
 
@@ -151,7 +151,7 @@ theorem encodeCell_invisible (c : Cell) (h : c.visible = false) : encodeCell c =
 
 theorem readRow_cells (cs : List Cell) (k : Nat) (tail rest : Bytes) (hwf : ∀ c ∈ cs, c.wf = true)
     (hk : (k = 0 ∧ tail = []) ∨ (0 < k ∧ tail = leBytes 2 attrInvisibleShort)) :
-    readRow true (cs.length + k) (cs.flatMap encodeCell ++ (tail ++ rest)) = .ok (optRow cs, rest) := by
+    readRow (cs.length + k) (cs.flatMap encodeCell ++ (tail ++ rest)) = .ok (optRow cs, rest) := by
   induction cs with
   | nil =>
     rcases hk with ⟨rfl, rfl⟩ | ⟨hk, rfl⟩
@@ -204,7 +204,7 @@ theorem stripInv_mem (cells : List Cell) (c : Cell) (h : c ∈ stripInv cells) :
 
 theorem readRow_encodeRow (w : Nat) (cells : List Cell) (hlen : cells.length = w)
     (hwf : ∀ c ∈ cells, c.wf = true) (rest : Bytes) :
-    readRow true w (encodeRow w cells ++ rest) = .ok (optRow (stripInv cells), rest) := by
+    readRow w (encodeRow w cells ++ rest) = .ok (optRow (stripInv cells), rest) := by
   have hle := stripInv_length_le cells
   have hwf' : ∀ c ∈ stripInv cells, c.wf = true := fun c hc => hwf c (stripInv_mem _ _ hc)
   unfold encodeRow
@@ -240,7 +240,7 @@ theorem encodeRow_ne_nil (w : Nat) (hw : 0 < w) (cells : List Cell) (hlen : cell
 
 theorem readRows_rows (w : Nat) (hw : 0 < w) (rows : List (List Cell))
     (hlen : ∀ r ∈ rows, r.length = w) (hwf : ∀ r ∈ rows, ∀ c ∈ r, c.wf = true) :
-    readRows true w rows.length (rows.flatMap (encodeRow w)) = .ok (rows.map fun r => optRow (stripInv r)) := by
+    readRows w rows.length (rows.flatMap (encodeRow w)) = .ok (rows.map fun r => optRow (stripInv r)) := by
   induction rows with
   | nil => simp [readRows]
   | cons r rs ih =>
